@@ -238,72 +238,72 @@ package volatility
 // what each New* function returns, read off its literal: fresh, pairwise separate sub-objects, fields equal to the
 // arguments / constants they are initialised with (transitively through nested constructors); proved, not assumed
 //@ func NewAccelerationBands
-//@ ensures[C01] "fresh-and-separate-objects" fresh(result)
-//@ ensures[C01] "configured-as-given" result.Period == 20
+//@ ensures[C01,C02,C04,C15] "fresh-and-separate-objects" fresh(result)
+//@ ensures[C01,C02,C04,C15] "configured-as-given" result.Period == 20
 
 //@ func NewBollingerBandWidth
-//@ ensures[C01] "fresh-and-separate-objects" fresh(result) && fresh(result.BollingerBands)
-//@ ensures[C01] "configured-as-given" result.BollingerBands.Period == 20
+//@ ensures[C01,C02,C04,C15] "fresh-and-separate-objects" fresh(result) && fresh(result.BollingerBands)
+//@ ensures[C01,C02,C04,C15] "configured-as-given" result.BollingerBands.Period == 20
 
 //@ func NewBollingerBands
-//@ ensures[C01] "fresh-and-separate-objects" fresh(result)
-//@ ensures[C01] "configured-as-given" result.Period == 20
+//@ ensures[C01,C02,C04,C15] "fresh-and-separate-objects" fresh(result)
+//@ ensures[C01,C02,C04,C15] "configured-as-given" result.Period == 20
 
 //@ func NewBollingerBandsWithPeriod
-//@ ensures[C01] "fresh-and-separate-objects" fresh(result)
-//@ ensures[C01] "configured-as-given" result.Period == period
+//@ ensures[C01,C02,C04,C15] "fresh-and-separate-objects" fresh(result)
+//@ ensures[C01,C02,C04,C15] "configured-as-given" result.Period == period
 
 //@ func NewChandelierExit
-//@ ensures[C01] "fresh-and-separate-objects" fresh(result)
-//@ ensures[C01] "configured-as-given" result.Multiplier == 3 && result.Period == 22
+//@ ensures[C01,C02,C04,C15] "fresh-and-separate-objects" fresh(result)
+//@ ensures[C01,C02,C04,C15] "configured-as-given" result.Multiplier == 3 && result.Period == 22
 
 //@ func NewDonchianChannel
-//@ ensures[C01] "fresh-and-separate-objects" fresh(result) && fresh(result.Max) && fresh(result.Min)
-//@ ensures[C01] "configured-as-given" result.Max.Period == 20 && result.Min.Period == 20
+//@ ensures[C01,C02,C04,C15] "fresh-and-separate-objects" fresh(result) && fresh(result.Max) && fresh(result.Min)
+//@ ensures[C01,C02,C04,C15] "configured-as-given" result.Max.Period == 20 && result.Min.Period == 20
 
 //@ func NewDonchianChannelWithPeriod
-//@ ensures[C01] "fresh-and-separate-objects" fresh(result) && fresh(result.Max) && fresh(result.Min)
-//@ ensures[C01] "configured-as-given" result.Max.Period == period && result.Min.Period == period
+//@ ensures[C01,C02,C04,C15] "fresh-and-separate-objects" fresh(result) && fresh(result.Max) && fresh(result.Min)
+//@ ensures[C01,C02,C04,C15] "configured-as-given" result.Max.Period == period && result.Min.Period == period
 
 //@ func NewKeltnerChannel
-//@ ensures[C01] "fresh-and-separate-objects" fresh(result) && fresh(result.Ema)
-//@ ensures[C01] "configured-as-given" result.Ema.Period == 20 && result.Ema.Smoothing == 2
+//@ ensures[C01,C02,C04,C15] "fresh-and-separate-objects" fresh(result) && fresh(result.Ema)
+//@ ensures[C01,C02,C04,C15] "configured-as-given" result.Ema.Period == 20 && result.Ema.Smoothing == 2
 
 //@ func NewKeltnerChannelWithPeriod
-//@ ensures[C01] "fresh-and-separate-objects" fresh(result) && fresh(result.Ema)
-//@ ensures[C01] "configured-as-given" result.Ema.Period == period && result.Ema.Smoothing == 2
+//@ ensures[C01,C02,C04,C15] "fresh-and-separate-objects" fresh(result) && fresh(result.Ema)
+//@ ensures[C01,C02,C04,C15] "configured-as-given" result.Ema.Period == period && result.Ema.Smoothing == 2
 
 //@ func NewMovingStd
-//@ ensures[C01] "fresh-and-separate-objects" fresh(result)
-//@ ensures[C01] "configured-as-given" result.Period == 1
+//@ ensures[C01,C02,C04,C15] "fresh-and-separate-objects" fresh(result)
+//@ ensures[C01,C02,C04,C15] "configured-as-given" result.Period == 1
 
 //@ func NewMovingStdWithPeriod
-//@ ensures[C01] "fresh-and-separate-objects" fresh(result)
-//@ ensures[C01] "configured-as-given" result.Period == period
+//@ ensures[C01,C02,C04,C15] "fresh-and-separate-objects" fresh(result)
+//@ ensures[C01,C02,C04,C15] "configured-as-given" result.Period == period
 
 //@ func NewPercentB
-//@ ensures[C01] "fresh-and-separate-objects" fresh(result) && fresh(result.BollingerBands)
-//@ ensures[C01] "configured-as-given" result.BollingerBands.Period == 20
+//@ ensures[C01,C02,C04,C15] "fresh-and-separate-objects" fresh(result) && fresh(result.BollingerBands)
+//@ ensures[C01,C02,C04,C15] "configured-as-given" result.BollingerBands.Period == 20
 
 //@ func NewPercentBWithPeriod
-//@ ensures[C01] "fresh-and-separate-objects" fresh(result) && fresh(result.BollingerBands)
-//@ ensures[C01] "configured-as-given" result.BollingerBands.Period == period
+//@ ensures[C01,C02,C04,C15] "fresh-and-separate-objects" fresh(result) && fresh(result.BollingerBands)
+//@ ensures[C01,C02,C04,C15] "configured-as-given" result.BollingerBands.Period == period
 
 //@ func NewPo
-//@ ensures[C01] "fresh-and-separate-objects" fresh(result) && fresh(result.max) && fresh(result.min) && fresh(result.mls) && fresh(result.mls.Sum)
-//@ ensures[C01] "configured-as-given" result.max.Period == 14 && result.min.Period == 14 && result.mls.Sum.Period == 14
+//@ ensures[C01,C02,C04,C15] "fresh-and-separate-objects" fresh(result) && fresh(result.max) && fresh(result.min) && fresh(result.mls) && fresh(result.mls.Sum)
+//@ ensures[C01,C02,C04,C15] "configured-as-given" result.max.Period == 14 && result.min.Period == 14 && result.mls.Sum.Period == 14
 
 //@ func NewPoWithPeriod
-//@ ensures[C01] "fresh-and-separate-objects" fresh(result) && fresh(result.max) && fresh(result.min) && fresh(result.mls) && fresh(result.mls.Sum)
-//@ ensures[C01] "configured-as-given" result.max.Period == period && result.min.Period == period && result.mls.Sum.Period == period
+//@ ensures[C01,C02,C04,C15] "fresh-and-separate-objects" fresh(result) && fresh(result.max) && fresh(result.min) && fresh(result.mls) && fresh(result.mls.Sum)
+//@ ensures[C01,C02,C04,C15] "configured-as-given" result.max.Period == period && result.min.Period == period && result.mls.Sum.Period == period
 
 //@ func NewSuperTrend
-//@ ensures[C01] "fresh-and-separate-objects" fresh(result)
+//@ ensures[C01,C02,C04,C15] "fresh-and-separate-objects" fresh(result)
 
 //@ func NewSuperTrendWithPeriod
-//@ ensures[C01] "fresh-and-separate-objects" fresh(result)
+//@ ensures[C01,C02,C04,C15] "fresh-and-separate-objects" fresh(result)
 
 //@ func NewUlcerIndex
-//@ ensures[C01] "fresh-and-separate-objects" fresh(result)
-//@ ensures[C01] "configured-as-given" result.Period == 14
+//@ ensures[C01,C02,C04,C15] "fresh-and-separate-objects" fresh(result)
+//@ ensures[C01,C02,C04,C15] "configured-as-given" result.Period == 14
 // ---- end of generated constructor contracts ----
